@@ -136,6 +136,8 @@ def run_cases(cases, analyse, jobs=None, budget_s=None, scratch=None, progress=N
     thread's pool worker; it must copy what it wants to keep (the case
     directory is removed right after, unless it returns 'keep')."""
     jobs = jobs or max(2, common.NCPU)
+    if os.environ.get("VERIF_JOBS"):
+        jobs = max(1, min(jobs, int(os.environ["VERIF_JOBS"])))
     scratch = scratch or common.scratch_root()
     t0 = time.monotonic()
     lock = threading.Lock()
